@@ -26,7 +26,9 @@ RULE = ("'graders' (random): a grader spec (vlib/gspec.py) of one of the 8 kinds
         "composition, its reverse and its riffle for 7 and 8 inputs) as an ordered ListGrader over a list of subgraders "
         "(StringGrader for one-element groups, ordered/unordered inner ListGrader otherwise; equal-sized groups also as "
         "an unordered ListGrader over one inner ListGrader), graded on all-correct, rotated-within-group and "
-        "one-wrong-input-per-position submissions. Oracle on every RETURNED value: key set exactly {ok, grade_decimal, "
+        "one-wrong-input-per-position submissions. 'products' (random): MatrixGrader entry_partial_credit / "
+        "LinearComparer / author comparers x answer credit over the whole palette (incl. 0) x attempt credit, on "
+        "one-entry-off / offset / proportional inputs. Oracle on every RETURNED value: key set exactly {ok, grade_decimal, "
         "msg} for a single result, exactly {overall_message, input_list} with one single-form entry per submitted "
         "input for ListGrader (SumGrader returns the single form by documented design); grade_decimal a real number "
         "(not bool, not NaN) in [0,1]; msg/overall_message str; ok is exactly True/False/'partial' according to "
@@ -52,9 +54,12 @@ for _k in KINDS:
             REQUIRED['%s/%s/%s' % (_k, _o, _c)] = 3
 del REQUIRED['Sum/partial/nocredit']     # a SumGrader result is all or nothing; only attempt credit makes it partial
 REQUIRED.update({'list-result': 300, 'debug-on': 300, 'attempt-credit<1': 500, 'pinned-ok-survives': 5,
-                 'nested-list': 100, 'order-clause-judged': 50, 'sentinel-present': 300})
+                 'nested-list': 100, 'order-clause-judged': 50, 'sentinel-present': 300,
+                 'partial-comparer-message-with-zero-grade': 20})
 
 MARKERS = ['MITx Grading Library Version', 'Running on edX using python', 'Student Response']
+PARTIAL_MSG = re.compile(r'array entries are incorrect|zqm entries|zqm cmp|zqm some wrong|by a constant factor|'
+                         r'zqm (proportional|offset|linear)')
 PARTIAL_CMP = re.compile(r'entry_partial_credit|"\$cmp":"(linear|author|entry)"')
 
 
@@ -197,6 +202,8 @@ def judge(spec, rec):
         nt = True
     if debug:
         rec.cls('debug-on')
+    if grades == [0] and not debug and PARTIAL_MSG.search(res['msg']) and has_zero_credit_answer(g):
+        rec.cls('partial-comparer-message-with-zero-grade')     # where defect #11 (ok='partial', grade 0) lived
     if info['sentinels']:
         rec.cls('sentinel-present')
     for cl in set(info['classes']):
@@ -218,6 +225,47 @@ def strat_cases(draw, tier):
     spec = {'kind': case['kind'], 'g': case['g'], 'input': inp, 'attempt': attempt,
             'debug': gspec.chance(draw, 25), 'seed': draw(st.integers(0, 10 ** 6))}
     return spec
+
+
+@st.composite
+def strat_products(draw, tier):
+    """Grades that are products: partial-credit comparer x answer credit (whole palette incl. 0) x attempt credit."""
+    which = draw(st.sampled_from(['entry', 'linear', 'author']))
+    credit = draw(st.sampled_from(gspec.PAL))
+    ans = {'grade_decimal': credit, 'msg': draw(gspec.msgs)}
+    if which == 'entry':
+        f = draw(st.sampled_from(gspec.M_FORMS[:4]))
+        kw = {'variables': ['zqx'], 'max_array_dim': 2,
+              'entry_partial_credit': draw(st.sampled_from([0.5, 'proportional', 0.1, 1 / 3, 1]))}
+        if gspec.chance(draw, 30):
+            kw['entry_partial_msg'] = draw(st.sampled_from(['zqm entries {error_locations}', '']))
+        ans['expect'] = f[0]
+        cls = 'MatrixGrader'
+    elif which == 'linear':
+        f = draw(st.sampled_from(gspec.F_FORMS[:4]))
+        ckw = {m: draw(st.sampled_from(gspec.PAL)) for m in ('proportional', 'offset', 'linear') if gspec.chance(draw, 60)}
+        kw = {'variables': ['zqx', 'zqy'], 'samples': draw(st.sampled_from([3, 5]))}
+        ans['expect'] = {'comparer_params': [f[0]], 'comparer': {'$cmp': 'linear', 'kw': ckw}}
+        cls = 'FormulaGrader'
+    else:
+        f = draw(st.sampled_from(gspec.F_FORMS[:4]))
+        rets = st.one_of(st.sampled_from(['partial', True, False]),
+                         st.builds(lambda g, m: {'grade_decimal': g, 'msg': m}, st.sampled_from(gspec.PAL), gspec.msgs))
+        kw = {'variables': ['zqx', 'zqy']}
+        ans['expect'] = {'comparer_params': [f[0]], 'comparer': {'$cmp': 'author', 'hit': draw(rets), 'miss': draw(rets)}}
+        cls = 'FormulaGrader'
+    others = [x for x in (gspec.M_FORMS[:4] if which == 'entry' else gspec.F_FORMS[:4]) if x[0] != f[0]]
+    alts = [ans]
+    if gspec.chance(draw, 40):
+        alts.append(draw(st.sampled_from(others))[0])
+    kw['answers'] = alts[0] if len(alts) == 1 else {'$t': alts}
+    attempt = None
+    if gspec.chance(draw, 50):
+        kw['attempt_based_credit'] = gspec.credit_specs(draw)
+        attempt = draw(gspec.attempts)
+    inp = draw(st.sampled_from([f[2][0], f[0], f[1][0], f[2][1], f[2][0], f[2][2]]))
+    return {'kind': 'Matrix' if which == 'entry' else 'Formula', 'g': {'$g': cls, 'kw': kw}, 'input': inp,
+            'attempt': attempt, 'debug': False, 'seed': draw(st.integers(0, 10 ** 6))}
 
 
 # ----------------------------------------------------------------------------------------------------
@@ -308,5 +356,7 @@ def judge_grouping(spec, rec):
 PARTS = [
     Part('graders', 'hyp', judge, strategy=lambda tier: strat_cases(tier),
          budget={'quick': 6000, 'thorough': 150000}),
+    Part('products', 'hyp', judge, strategy=lambda tier: strat_products(tier),
+         budget={'quick': 900, 'thorough': 20000}),
     Part('groupings', 'enum', judge_grouping, items=items_groupings, exhaustive=True),
 ]
